@@ -16,6 +16,8 @@ import (
 	mctypes "github.com/elys-network/elys/x/masterchef/types"
 	ptypes "github.com/elys-network/elys/x/parameter/types"
 	perptypes "github.com/elys-network/elys/x/perpetual/types"
+	sskeeper "github.com/elys-network/elys/x/stablestake/keeper"
+	sstypes "github.com/elys-network/elys/x/stablestake/types"
 	vrf "github.com/elys-network/elys/zzvrf"
 	"github.com/elys-network/elys/zzvrf/wire"
 )
@@ -70,6 +72,7 @@ func pool1(env *wire.Env) {
 
 // R2a: CollectDEXRevenue — what stays in the masterchef account is at least the LP portion it records
 // for the pool, and it neither errors nor panics for any validated parameter setting.
+//
 //vrf:cover collected
 //vrf:bound 1 amm pool; pool revenue (uusdc) symbolic >= 0; LP/staker/provider portions symbolic within Params.Validate()
 func H_R2_CollectDEXRevenue() {
@@ -110,6 +113,7 @@ func H_R2_CollectDEXRevenue() {
 }
 
 // R2b: CollectGasFees (fee collector holds uusdc).
+//
 //vrf:cover collected
 //vrf:bound gas fees in uusdc only (no conversion swap); portions symbolic within Validate()
 func H_R2_CollectGasFees() {
@@ -145,6 +149,7 @@ func H_R2_CollectGasFees() {
 }
 
 // R2c: CollectPerpRevenue (perpetual module account holds uusdc).
+//
 //vrf:cover collected
 //vrf:bound perpetual revenue in uusdc only; portions symbolic within Validate()
 func H_R2_CollectPerpRevenue() {
@@ -219,6 +224,7 @@ func lpSetup() *lp {
 
 // R1a: one credit adds at most the credited amount to the holders' claimable rewards, and both claims succeed
 // when the masterchef account holds the credited amount.
+//
 //vrf:cover claimed
 //vrf:bound 2 holders + symbolic remainder, TotalCommitted <= 1e30, credit amount and accumulator symbolic
 //vrf:assert-ms 120000
@@ -244,6 +250,7 @@ func H_R1_CreditBoundsClaims() {
 }
 
 // R1b: shares committed after a credit earn nothing from it.
+//
 //vrf:cover claimed
 //vrf:bound as R1a; alice deposits a symbolic amount after the credit (commitment + AfterDeposit hook)
 //vrf:assert-ms 120000
@@ -272,4 +279,102 @@ func H_R1_LateDepositEarnsNothing() {
 	// alice's entitlement from the credit is at most a/tot of it
 	vrf.Assert(paid.Mul(s.tot).LTE(amt.Mul(s.a)), "C13-R1: a deposit made after a credit earns nothing from it")
 	_ = info
+}
+
+// ---- R1 through the real stablestake entry points (hook arguments included) ----
+
+type vaultLp struct {
+	env        *wire.Env
+	a, tot, tv sdkmath.Int
+	credit     sdkmath.Int
+}
+
+// a vault whose shares are all committed (alice a, the others tot-a), redemption rate >= 1, the masterchef
+// stable pool credited once with `credit` uusdc that sit in the masterchef account; alice checkpointed before it
+func vaultSetup() *vaultLp {
+	env := base()
+	ctx := env.Ctx
+	env.Mc.SetParams(ctx, mctypes.DefaultParams())
+	env.Mc.InitStableStakePoolParams(ctx, sstypes.PoolId)
+	share := sstypes.GetShareDenom()
+	env.Aprof.SetEntry(ctx, aptypes.Entry{BaseDenom: share, Denom: share, Decimals: 6, CommitEnabled: true, WithdrawEnabled: true})
+	s := &vaultLp{env: env, a: vrf.Int("committedA"), tot: vrf.Int("totalCommitted"), tv: vrf.Int("TV"), credit: vrf.Int("credit")}
+	vrf.Assume(s.a.IsPositive())
+	vrf.Assume(s.a.LTE(s.tot))
+	vrf.Assume(s.tot.LTE(sdkmath.NewIntWithDecimal(1, 18)))
+	vrf.Assume(s.tv.GTE(s.tot)) // redemption rate >= 1
+	vrf.Assume(s.tv.LTE(sdkmath.NewIntWithDecimal(1, 24)))
+	vrf.Assume(s.credit.IsPositive())
+	p := sstypes.DefaultParams()
+	p.TotalValue = s.tv
+	env.Stable.SetParams(ctx, p)
+	env.W.Supply[share] = s.tot
+	env.W.SetBal(authtypes.NewModuleAddress(ctypes.ModuleName), share, s.tot)
+	env.W.SetBal(authtypes.NewModuleAddress(sstypes.ModuleName), usdc, s.tv) // fully liquid vault
+	ca := env.Comm.GetCommitments(ctx, alice)
+	ca.AddCommittedTokens(share, s.a, 0)
+	env.Comm.SetCommitments(ctx, ca)
+	cp := env.Comm.GetParams(ctx)
+	cp.TotalCommitted = sdk.Coins{sdk.NewCoin(share, s.tot)}
+	env.Comm.SetParams(ctx, cp)
+	acc0 := vrf.Dec("acc0")
+	vrf.Assume(!acc0.IsNegative())
+	env.Mc.SetPoolRewardInfo(ctx, mctypes.PoolRewardInfo{PoolId: sstypes.PoolId, RewardDenom: usdc, PoolAccRewardPerShare: acc0, LastUpdatedBlock: 1})
+	env.Mc.UpdateUserRewardDebt(ctx, sstypes.PoolId, usdc, alice)
+	env.W.SetBal(mcAddr, usdc, s.credit)
+	env.Mc.UpdateAccPerShare(ctx, sstypes.PoolId, usdc, s.credit)
+	return s
+}
+
+// R1c: a holder who unbonds after a credit (at any redemption rate >= 1) has earned from that credit at most the
+// pro-rata share of the shares she held when it was made: paid * total <= credit * a.
+//
+//vrf:cover claimed
+//vrf:bound vault with share supply <= 1e18 all committed, TotalValue in [supply, 1e24]; 1 holder + symbolic remainder; symbolic credit, accumulator and unbond amount
+//vrf:assert-ms 120000
+func H_R1_UnbondAfterCredit() {
+	s := vaultSetup()
+	env, ctx := s.env, s.env.Ctx
+	x := vrf.Int("unbondShares")
+	vrf.Assume(x.IsPositive())
+	vrf.Assume(x.LTE(s.a))
+	srv := sskeeper.NewMsgServerImpl(*env.Stable)
+	w0 := env.W.BalOf(alice, usdc)
+	if _, err := srv.Unbond(ctx, &sstypes.MsgUnbond{Creator: alice.String(), Amount: x}); err != nil {
+		return
+	}
+	redeemed := env.W.BalOf(alice, usdc).Sub(w0)
+	if env.Mc.ClaimRewards(ctx, alice, []uint64{sstypes.PoolId}, alice) != nil {
+		return
+	}
+	vrf.Cover("claimed")
+	paid := env.W.BalOf(alice, usdc).Sub(w0).Sub(redeemed)
+	vrf.Observe("paid", paid)
+	vrf.Assert(paid.Mul(s.tot).LTE(s.credit.Mul(s.a)), "C13-R1: an unbond after a credit earns at most the pro-rata share of the shares held at the credit")
+	vrf.Assert(paid.LTE(s.credit), "C13-R1: never more than the credited amount is claimable")
+}
+
+// R1d: shares bonded after a credit earn nothing from it.
+//
+//vrf:cover claimed
+//vrf:bound as R1c; a bond of a symbolic amount after the credit
+//vrf:assert-ms 120000
+func H_R1_BondAfterCredit() {
+	s := vaultSetup()
+	env, ctx := s.env, s.env.Ctx
+	amt := vrf.Int("bondAmount")
+	vrf.Assume(amt.IsPositive())
+	env.W.SetBal(alice, usdc, amt)
+	srv := sskeeper.NewMsgServerImpl(*env.Stable)
+	if _, err := srv.Bond(ctx, &sstypes.MsgBond{Creator: alice.String(), Amount: amt}); err != nil {
+		return
+	}
+	w0 := env.W.BalOf(alice, usdc)
+	if env.Mc.ClaimRewards(ctx, alice, []uint64{sstypes.PoolId}, alice) != nil {
+		return
+	}
+	vrf.Cover("claimed")
+	paid := env.W.BalOf(alice, usdc).Sub(w0)
+	vrf.Observe("paid", paid)
+	vrf.Assert(paid.Mul(s.tot).LTE(s.credit.Mul(s.a)), "C13-R1: a bond made after a credit earns nothing from it")
 }
